@@ -520,3 +520,318 @@ class kernel_circle_grid_window_pixels_hold_their_sampled_fraction:
         apply_far_pixel_lemma(lemma_far_pixel_of_a_disk_has_no_member_sample, 'circle', (r,), px, subpixels, r=r)
         return (not (0 <= I and I < nx and 0 <= J and J < ny)) or inw or result[J, I] == _frac_of('circle', (r,), px, subpixels)
     post = {'pixels_outside_the_window': _post}
+
+
+# ---------------------------------------------------------------------------------------------------------------------------
+# A-KERNEL-WINDOW, part 2 (proved): the circle grid's distance short-cuts.  With c the pixel centre, D = |c| and P the half-diagonal,
+# every point p of the pixel has |p - c| < P, hence |p| < D + P (all samples inside when D < r - P) and |p| > D - P (none inside
+# when D >= r + P): the triangle inequality, in steps each proved for all reals on its own.
+def _cs(cx, cy, ex, ey):
+    return (cx * ex + cy * ey) * (cx * ex + cy * ey) <= (cx * cx + cy * cy) * (ex * ex + ey * ey)
+
+
+def _expand(cx, cy, ex, ey):
+    return (cx + ex) * (cx + ex) + (cy + ey) * (cy + ey) == (cx * cx + cy * cy) + 2 * (cx * ex + cy * ey) + (ex * ex + ey * ey)
+
+
+def _in_cell(ex, ey, dx, dy):
+    return (not (dx > 0 and dy > 0 and -dx / 2 < ex and ex < dx / 2 and -dy / 2 < ey and ey < dy / 2)) or ex * ex + ey * ey < (dx * dx + dy * dy) / 4
+
+
+def _root_mono(t, P):
+    return (not (t >= 0 and P >= 0 and t * t < P * P)) or t < P
+
+
+def _half_sq(S, A):
+    return (not (S * S == A)) or (0.5 * S) * (0.5 * S) == A / 4
+
+
+def _prod_sq(A, B, D, t):
+    return (not (D * D == A and t * t == B)) or D * D * t * t == A * B
+
+
+def _tri_upper(D, t, q, r, P):
+    return (not (D >= 0 and t >= 0 and P >= 0 and q * q <= D * D * t * t and t < P and D + P < r)) or D * D + 2 * q + t * t < r * r
+
+
+def _tri_lower(D, t, q, r, P):
+    return (not (D >= 0 and t >= 0 and P >= 0 and q * q <= D * D * t * t and t < P and D >= r + P and r > 0)) or D * D + 2 * q + t * t >= r * r
+
+
+def _disk_steps(x0, y0, x1, y1, n, a, b, r):
+    """proof steps for sample (a, b - 1) of the pixel; returns nothing, leaves facts"""
+    from vprim import general, sqrt
+    from spec.masks import sample_point
+    if isinstance(b, int) and b == 0:
+        return True
+    p = sample_point(x0, y0, x1 - x0, y1 - y0, n, a, b - 1)
+    dx, dy = x1 - x0, y1 - y0
+    cx, cy = x0 + dx * 0.5, y0 + dy * 0.5
+    ex, ey = p[0] - cx, p[1] - cy
+    D = sqrt(cx * cx + cy * cy)
+    P = 0.5 * sqrt(dx * dx + dy * dy)
+    t = sqrt(ex * ex + ey * ey)
+    q = cx * ex + cy * ey
+    general('sample_centre_inside_cell', _centre_inside, x0, x1, a, n)
+    general('sample_centre_inside_cell', _centre_inside, y0, y1, b - 1, n)
+    general('offset_from_the_centre_is_inside_the_half_diagonal', _in_cell, ex, ey, dx, dy)
+    general('root_is_monotone', _root_mono, t, P)
+    general('half_root_squared', _half_sq, sqrt(dx * dx + dy * dy), dx * dx + dy * dy)
+    general('product_of_squares', _prod_sq, cx * cx + cy * cy, ex * ex + ey * ey, D, t)
+    general('cauchy_schwarz', _cs, cx, cy, ex, ey)
+    general('square_of_a_sum', _expand, cx, cy, ex, ey)
+    general('triangle_upper', _tri_upper, D, t, q, r, P)
+    general('triangle_lower', _tri_lower, D, t, q, r, P)
+    return True
+
+
+def near_centre(px, r):
+    from vprim import sqrt
+    dx, dy = px[2] - px[0], px[3] - px[1]
+    cx, cy = px[0] + dx * 0.5, px[1] + dy * 0.5
+    return sqrt(cx * cx + cy * cy) < r - 0.5 * sqrt(dx * dx + dy * dy)
+
+
+def far_centre(px, r):
+    from vprim import sqrt
+    dx, dy = px[2] - px[0], px[3] - px[1]
+    cx, cy = px[0] + dx * 0.5, px[1] + dy * 0.5
+    return sqrt(cx * cx + cy * cy) >= r + 0.5 * sqrt(dx * dx + dy * dy)
+
+
+@contract('contracts/k_kernels.py::ghost_far_pixel', props=['C02'])
+class lemma_pixel_beyond_the_circle_has_no_member_sample:
+    def setup(B):
+        r = B.real('r')
+        return dict(kind='circle', params=(r,), x0=B.real('x0'), y0=B.real('y0'), x1=B.real('x1'), y1=B.real('y1'), n=B.int('n'), r=r)
+    pre = lambda x0, y0, x1, y1, n, r: n >= 1 and x1 > x0 and y1 > y0 and r > 0 and far_centre((x0, y0, x1, y1), r)
+    loops = {
+        'ghost_far_pixel#0': lambda a, kind, params, x0, y0, x1, y1, n: _far_outer(kind, params, a, x0, y0, x1, y1, n),
+        'ghost_far_pixel#1': lambda b, a, kind, params, x0, y0, x1, y1, n, r:
+            _disk_steps(x0, y0, x1, y1, n, a, b, r) and _far_inner(kind, params, a, b, x0, y0, x1, y1, n),
+    }
+    post = {'no_member_sample': lambda result: result == 0}
+
+
+def _full_outer(kind, params, a, x0, y0, x1, y1, n):
+    return tot_count(kind, params, x0, y0, x1 - x0, y1 - y0, n, a) == a * n
+
+
+def _full_inner(kind, params, a, b, x0, y0, x1, y1, n):
+    return (0 <= a and a < n and tot_count(kind, params, x0, y0, x1 - x0, y1 - y0, n, a) == a * n
+            and col_count(kind, params, x0, y0, x1 - x0, y1 - y0, n, a, b) == b)
+
+
+@contract('contracts/k_kernels.py::ghost_far_pixel', props=['C02'])
+class lemma_pixel_well_inside_the_circle_has_only_member_samples:
+    def setup(B):
+        r = B.real('r')
+        return dict(kind='circle', params=(r,), x0=B.real('x0'), y0=B.real('y0'), x1=B.real('x1'), y1=B.real('y1'), n=B.int('n'), r=r)
+    pre = lambda x0, y0, x1, y1, n, r: n >= 1 and x1 > x0 and y1 > y0 and r > 0 and near_centre((x0, y0, x1, y1), r)
+    loops = {
+        'ghost_far_pixel#0': lambda a, kind, params, x0, y0, x1, y1, n: _full_outer(kind, params, a, x0, y0, x1, y1, n),
+        'ghost_far_pixel#1': lambda b, a, kind, params, x0, y0, x1, y1, n, r:
+            _disk_steps(x0, y0, x1, y1, n, a, b, r) and _full_inner(kind, params, a, b, x0, y0, x1, y1, n),
+    }
+    post = {'every_sample_is_a_member': lambda result, n: result == n * n}
+
+
+def _unit_quotient(m):
+    return (not (m >= 1)) or (m * m) / (m * m) == 1
+
+
+@contract(CIRC + 'circular_overlap_grid', props=['C02'])
+class kernel_circle_grid_is_the_sampled_fraction_everywhere:
+    """with the three lemmas about pixels far from / well inside the circle: every pixel of the grid holds its sampled fraction"""
+    def setup(B):
+        stub(CIRC + 'circular_overlap_single_subpixel',
+             lambda x0, y0, x1, y1, r, subpixels: sampled_fraction('circle', (r,), x0, y0, x1 - x0, y1 - y0, subpixels))
+        return dict(xmin=B.real('xmin'), xmax=B.real('xmax'), ymin=B.real('ymin'), ymax=B.real('ymax'), nx=B.int('nx'), ny=B.int('ny'),
+                    r=B.real('r'), use_exact=0, subpixels=B.int('n'))
+    pre = kernel_circle_grid.pre
+    forall = {'I': 'int', 'J': 'int'}
+    loops = kernel_circle_grid.loops
+
+    def _post(xmin, xmax, ymin, ymax, nx, ny, r, subpixels, result, I, J):
+        from vprim import fact, implies, general, event
+        px = _pixel(xmin, xmax, ymin, ymax, nx, ny, I, J)
+        apply_far_pixel_lemma(lemma_far_pixel_of_a_disk_has_no_member_sample, 'circle', (r,), px, subpixels, r=r)
+        apply_far_pixel_lemma(lemma_pixel_beyond_the_circle_has_no_member_sample, 'circle', (r,), px, subpixels, r=r)
+        pre_full = lemma_pixel_well_inside_the_circle_has_only_member_samples.pre(x0=px[0], y0=px[1], x1=px[2], y1=px[3], n=subpixels, r=r)
+        event('lemma', name='lemma_pixel_well_inside_the_circle_has_only_member_samples')
+        fact(implies(pre_full, tot_count('circle', (r,), px[0], px[1], px[2] - px[0], px[3] - px[1], subpixels, subpixels) == subpixels * subpixels))
+        general('a_full_count_is_the_fraction_one', _unit_quotient, subpixels)
+        return (not (0 <= I and I < nx and 0 <= J and J < ny)) or result[J, I] == _frac_of('circle', (r,), px, subpixels)
+    post = {'every_pixel': _post}
+
+
+# ---------------------------------------------------------------------------------------------------------------------------
+# A-KERNEL-WINDOW, part 3 (proved): a point outside the bounding box of a polygon's vertices has an even crossing number.
+# Above/below the box no edge meets the ray's line; to the right every meeting point lies left of the point; to the left every edge that
+# meets the line crosses the ray, and the number of such edges of a closed polygon is even (the sign "vertex above the line" returns
+# to where it started): induction over the edges, as a ghost loop.
+from spec.polygon import edge_crosses
+
+
+def ghost_point_vs_polygon(vx, vy, x, y):
+    n = len(vx)
+    for k in range(n):
+        pass
+    return crossings(vx, vy, x, y, n)
+
+
+def _between(y, yk, yj, xk, xj):
+    """an edge whose end points lie on different sides of the line meets it between the end points' abscissae"""
+    xi = xk + (y - yk) * (xj - xk) / (yj - yk)
+    return (not ((yk > y) != (yj > y))) or ((xi >= xk or xi >= xj) and (xi <= xk or xi <= xj))
+
+
+def outside_bbox(vx, vy, x, y):
+    return x < vx.min() or x > vx.max() or y < vy.min() or y > vy.max()
+
+
+def _edge_inv(k, vx, vy, x, y, n):
+    from vprim import witness, general, ite
+    above = lambda m: vy[m] > y
+    if not (isinstance(k, int) and k == 0):
+        kk = k - 1                      # the edge just processed: from vertex (kk - 1) mod n to vertex kk
+        j = (kk + n - 1) % n
+        witness(n, kk)
+        witness(n, j)
+        general('meeting_point_between_the_end_points', _between, y, vy[kk], vy[j], vx[kk], vx[j])
+    left = x < vx.min()
+    c = crossings(vx, vy, x, y, k)
+    parity = ite(k >= 1 and (above(k - 1) != above(n - 1)), 1, 0) if not (isinstance(k, int) and k == 0) else 0
+    return 0 <= c and ((not left) or c % 2 == parity) and (left or c == 0)
+
+
+@contract('contracts/k_kernels.py::ghost_point_vs_polygon', props=['C02', 'C01'])
+class lemma_point_outside_the_vertex_box_has_even_crossing_number:
+    def setup(B):
+        n = B.int('n')
+        B.assume(n >= 1)
+        return dict(vx=B.array('vx', (n,)), vy=B.array('vy', (n,)), x=B.real('x'), y=B.real('y'))
+    pre = lambda vx, vy, x, y: outside_bbox(vx, vy, x, y)
+    loops = {'ghost_point_vs_polygon#0': lambda k, vx, vy, x, y, n: _edge_inv(k, vx, vy, x, y, n)}
+    post = {'even': lambda result: result % 2 == 0,
+            'not_a_member': lambda vx, vy, x, y: not crossings_odd(vx, vy, x, y)}
+
+
+def outside_vertex_box(px, vx, vy):
+    """the kernel's own test, negated: the pixel does not meet the bounding box of the vertices"""
+    return px[2] <= vx.min() or px[0] >= vx.max() or px[3] <= vy.min() or px[1] >= vy.max()
+
+
+def _far_inner_polygon(params, a, b, x0, y0, x1, y1, n):
+    from vprim import general, fact, implies, event
+    from spec.masks import sample_point
+    vx, vy = params
+    if not (isinstance(b, int) and b == 0):
+        p = sample_point(x0, y0, x1 - x0, y1 - y0, n, a, b - 1)
+        general('sample_centre_inside_cell', _centre_inside, x0, x1, a, n)
+        general('sample_centre_inside_cell', _centre_inside, y0, y1, b - 1, n)
+        # the point lemma, used modularly at this sample: precondition and conclusion are those of its contract
+        event('lemma', name='lemma_point_outside_the_vertex_box_has_even_crossing_number')
+        fact(implies(lemma_point_outside_the_vertex_box_has_even_crossing_number.pre(vx=vx, vy=vy, x=p[0], y=p[1]),
+                     not crossings_odd(vx, vy, p[0], p[1])))
+    return _far_inner('polygon', params, a, b, x0, y0, x1, y1, n)
+
+
+@contract('contracts/k_kernels.py::ghost_far_pixel', props=['C02'])
+class lemma_pixel_outside_the_vertex_box_has_no_member_sample:
+    def setup(B):
+        m = B.int('m')
+        B.assume(m >= 1)
+        vx, vy = B.array('vx', (m,)), B.array('vy', (m,))
+        return dict(kind='polygon', params=(vx, vy), x0=B.real('x0'), y0=B.real('y0'), x1=B.real('x1'), y1=B.real('y1'), n=B.int('n'), vx=vx, vy=vy)
+    pre = lambda x0, y0, x1, y1, n, vx, vy: n >= 1 and x1 > x0 and y1 > y0 and outside_vertex_box((x0, y0, x1, y1), vx, vy)
+    loops = {
+        'ghost_far_pixel#0': lambda a, kind, params, x0, y0, x1, y1, n: _far_outer(kind, params, a, x0, y0, x1, y1, n),
+        'ghost_far_pixel#1': lambda b, a, kind, params, x0, y0, x1, y1, n: _far_inner_polygon(params, a, b, x0, y0, x1, y1, n),
+    }
+    post = {'no_member_sample': lambda result: result == 0}
+
+
+@contract(POLY + 'polygonal_overlap_grid', props=['C02'])
+class kernel_polygon_grid_is_the_sampled_fraction_everywhere:
+    def setup(B):
+        stub(POLY + 'polygonal_overlap_single_subpixel',
+             lambda x0, y0, x1, y1, vx, vy, subpixels: sampled_fraction('polygon', (vx, vy), x0, y0, x1 - x0, y1 - y0, subpixels))
+        m = B.int('m')
+        B.assume(m >= 1)
+        return dict(xmin=B.real('xmin'), xmax=B.real('xmax'), ymin=B.real('ymin'), ymax=B.real('ymax'), nx=B.int('nx'), ny=B.int('ny'),
+                    vx=B.array('vx', (m,)), vy=B.array('vy', (m,)), use_exact=0, subpixels=B.int('n'))
+    pre = kernel_polygon_grid.pre
+    forall = {'I': 'int', 'J': 'int'}
+    loops = kernel_polygon_grid.loops
+
+    def _post(xmin, xmax, ymin, ymax, nx, ny, vx, vy, subpixels, result, I, J):
+        px = _pixel(xmin, xmax, ymin, ymax, nx, ny, I, J)
+        apply_far_pixel_lemma(lemma_pixel_outside_the_vertex_box_has_no_member_sample, 'polygon', (vx, vy), px, subpixels, vx=vx, vy=vy)
+        return (not (0 <= I and I < nx and 0 <= J and J < ny)) or result[J, I] == _frac_of('polygon', (vx, vy), px, subpixels)
+    post = {'every_pixel': _post}
+
+
+# ---------------------------------------------------------------------------------------------------------------------------
+# facts the Python-layer model of the kernels states about FRAC (externals/geometry_kernels.py), derived from its definition:
+# a sampled fraction lies in [0, 1], and with a single sample it is 0 or 1 according to the membership of the pixel centre
+def _bounds_outer(kind, params, a, x0, y0, x1, y1, n):
+    t = tot_count(kind, params, x0, y0, x1 - x0, y1 - y0, n, a)
+    return 0 <= t and t <= a * n
+
+
+def _bounds_inner(kind, params, a, b, x0, y0, x1, y1, n):
+    t = tot_count(kind, params, x0, y0, x1 - x0, y1 - y0, n, a)
+    c = col_count(kind, params, x0, y0, x1 - x0, y1 - y0, n, a, b)
+    return 0 <= a and a < n and 0 <= t and t <= a * n and 0 <= c and c <= b
+
+
+def _kind_params(B, kind):
+    if kind == 'circle':
+        return (B.real('r'),)
+    if kind == 'polygon':
+        m = B.int('m')
+        B.assume(m >= 1)
+        return (B.array('vx', (m,)), B.array('vy', (m,)))
+    return (B.real('p0'), B.real('p1'), B.real('c'), B.real('s'))
+
+
+def _frac_in_unit(t, m):
+    return (not (m >= 1 and 0 <= t and t <= m * m)) or (0 <= t / (m * m) and t / (m * m) <= 1)
+
+
+@contract('contracts/k_kernels.py::ghost_far_pixel', props=['C02'])
+class lemma_sampled_fraction_lies_in_the_unit_interval:
+    cases = {k: {'kind': k} for k in ('circle', 'ellipse', 'rectangle', 'polygon')}
+
+    def setup(B, kind='circle'):
+        return dict(kind=kind, params=_kind_params(B, kind), x0=B.real('x0'), y0=B.real('y0'), x1=B.real('x1'), y1=B.real('y1'), n=B.int('n'))
+    pre = lambda n: n >= 1
+    loops = {
+        'ghost_far_pixel#0': lambda a, kind, params, x0, y0, x1, y1, n: _bounds_outer(kind, params, a, x0, y0, x1, y1, n),
+        'ghost_far_pixel#1': lambda b, a, kind, params, x0, y0, x1, y1, n: _bounds_inner(kind, params, a, b, x0, y0, x1, y1, n),
+    }
+
+    def _post(kind, params, x0, y0, x1, y1, n, result):
+        from vprim import general
+        general('quotient_in_unit_interval', _frac_in_unit, result, n)
+        f = sampled_fraction(kind, params, x0, y0, x1 - x0, y1 - y0, n)
+        return 0 <= result and result <= n * n and 0 <= f and f <= 1
+    post = {'in_unit_interval': _post}
+
+
+def _single(kind, params, x0, y0, x1, y1):
+    from spec.masks import sample_inside
+    from vprim import ite
+    f = sampled_fraction(kind, params, x0, y0, x1 - x0, y1 - y0, 1)
+    return f == ite(sample_inside(kind, params, x0, y0, x1 - x0, y1 - y0, 1, 0, 0), 1, 0)
+
+
+@contract('contracts/k_kernels.py::_single', props=['C02'])
+class lemma_one_sample_gives_zero_or_one:
+    """centre mode (one sample per pixel): the value is the membership of the pixel centre"""
+    cases = {k: {'kind': k} for k in ('circle', 'ellipse', 'rectangle', 'polygon')}
+
+    def setup(B, kind='circle'):
+        return dict(kind=kind, params=_kind_params(B, kind), x0=B.real('x0'), y0=B.real('y0'), x1=B.real('x1'), y1=B.real('y1'))
+    post = {'membership_of_the_pixel_centre': lambda result: result}
